@@ -36,7 +36,7 @@ from . import ltl as L
 # =============================================================================
 # rendering to Scenic source
 # =============================================================================
-HEADER = "from simverif.userlib import tab, tabv, ev, evv, fault, val, Tok, ftab, prop, fspec\n"
+HEADER = "from simverif.userlib import tab, tabv, ev, evv, fault, val, Tok, ftab, prop, fspec, setflag, flag\n"
 
 _FTAB = False  # set per render(): conditions carry a fault point (C14)
 _EGO = None  # set per render(): name of the object that is also bound to `ego`
@@ -139,6 +139,8 @@ def render_block(stmts, ind, out, in_beh):
             out.append(f"{pad}override {s[1]} with {s[2]} {s[3][1] if isinstance(s[3], list) else repr(s[3])}")
         elif op == "fault":
             out.append(f"{pad}fault({s[1]!r})")
+        elif op == "setflag":
+            out.append(f"{pad}setflag({s[1]!r})")
         elif op == "bind":
             out.append(f"{pad}{s[1]} = {s[2]}()")
         else:
@@ -204,6 +206,8 @@ def _guards(d, ind, out):
 def _guard(k):
     # ("rej", k): a guard whose evaluation raises a rejection when table k is false
     if isinstance(k, (list, tuple)):
+        if k[0] == "flag":  # state the program itself changes (possibly within one time step)
+            return f"flag({k[1]!r})"
         return f"grej({k[1]})"
     return _c(k, "guard")
 
@@ -351,6 +355,7 @@ class Ref:
         self.props = {}  # (obj, prop) -> value, for override modelling
         self.termtype = None
         self.endsim_flag = False
+        self.flags = set()
 
     # -- helpers -----------------------------------------------------------
     def tab(self, k):
@@ -364,6 +369,8 @@ class Ref:
     def guard(self, g):
         """Guard expression: int k -> tab(k); ["rej", k] -> raises rejection if false."""
         if isinstance(g, (list, tuple)):
+            if g[0] == "flag":
+                return g[1] in self.flags
             if not self.tab(g[1]):
                 raise Reject("guardrej")
             return True
@@ -404,6 +411,8 @@ class Ref:
             op = s[0]
             if op == "ev":
                 self.emit("ev", s[1])
+            elif op == "setflag":
+                self.flags.add(s[1])
             elif op == "take":
                 yield ("act", (s[1],))
                 self.check_inv(inst)
